@@ -175,6 +175,61 @@ def today_check(R):
                     {'recipe': {'kind': 'today'}, 'input_found': True})
 
 
+def today_follows_the_clock(R):
+    """TODAY on a LONG-LIVED executor: the generated module's clock (datetime.date.today / datetime.datetime.now) is replaced by a
+    controlled one and moved between queries of one executor; every query must show the date of the clock at that moment."""
+    import types
+    NOW = [dt.date(2024, 2, 28)]
+
+    class _M(type):
+        def __instancecheck__(cls, inst):
+            return isinstance(inst, cls.__mro__[1])
+
+    class FDate(dt.date, metaclass=_M):
+        @classmethod
+        def today(cls):
+            return dt.date(NOW[0].year, NOW[0].month, NOW[0].day)
+
+    class FDateTime(dt.datetime, metaclass=_M):
+        @classmethod
+        def now(cls, tz=None):
+            return dt.datetime(NOW[0].year, NOW[0].month, NOW[0].day, 13, 14, 15)
+
+        @classmethod
+        def today(cls):
+            return cls.now()
+
+        @classmethod
+        def utcnow(cls):
+            return cls.now()
+    fake = types.ModuleType('datetime')
+    fake.__dict__.update({k: v for k, v in dt.__dict__.items() if not k.startswith('__')})
+    fake.date, fake.datetime = FDate, FDateTime
+    src, _ = I.translate([('S', {'A1': dt.datetime(2024, 1, 1), 'B2': '=TODAY()', 'B3': '=DAY(TODAY())', 'B4': '=EOMONTH(TODAY(),0)', 'B5': '=YEAR(TODAY())+MONTH(TODAY())'})])
+    ns = {}
+    exec(compile(src, '<generated>', 'exec'), ns)
+    if 'datetime' not in ns or not isinstance(ns['datetime'], types.ModuleType):
+        return
+    ns['datetime'] = fake
+    e = I.executor(ns['ExcelInPython'])
+    steps = [dt.date(2024, 2, 28), dt.date(2024, 2, 29), dt.date(2024, 3, 1), dt.date(2024, 12, 31), dt.date(2025, 1, 1), dt.date(2100, 2, 28), dt.date(2100, 3, 1)]
+    for k, d in enumerate(steps):
+        NOW[0] = d
+        if k == 4:
+            e.set_cells([I.Cell(0, 0, 0, dt.datetime(2024, 1, 2))])        # an unrelated override in the middle of the history
+        last = (d.replace(day=28) + dt.timedelta(days=4)).replace(day=1) - dt.timedelta(days=1)
+        want = {1: ('ok', dt.datetime(d.year, d.month, d.day)), 2: ('ok', d.day), 3: ('ok', dt.datetime(last.year, last.month, last.day)), 4: ('ok', d.year + d.month)}
+        for r, w in want.items():
+            got = I.outcome(lambda: e.get_cell(I.Cell(0, 1, r)).value)
+            if k == 0 and r == 1 and got != w and got[0] == 'ok' and isinstance(got[1], dt.datetime) and got[1].date() == dt.date.today():
+                return                                   # the class reads the clock in a way this harness cannot steer: not covered
+            R.count(('today_clock', k, r), True)
+            if got != w:
+                R.violation('TODAY on a long-lived executor does not follow the clock: with the local date %s (query %d of one executor) cell B%d evaluates to %r, expected %r'
+                            % (d, k + 1, r + 1, got, w), {'recipe': {'kind': 'today_clock'}, 'input_found': True})
+                return
+
+
 def run(R, tier):
     R.coverage['rule'] = ('(y,m,d) with m in -14..26 and d in -800..800 over leap/century/boundary years; date pairs in 1900-2100; month offsets '
                           '-60..60 (and fractional); holiday subsets; direct helper calls and formulas; plus datetime/calendar library facts for the '
@@ -193,12 +248,18 @@ def run(R, tier):
     R.extra['input_distribution'] = dist
     C.correspond(R, HEADER, 'report', cases, 'c15', '_date/_year/_month/_day/_edate/_eomonth/_datedif/_network_days and their translators')
     today_check(R)
+    today_follows_the_clock(R)
     R.assumptions += ['the system clock is an oracle for TODAY (read before and after the call)',
                       'datetime/calendar/dateutil are modelled; their agreement with Base/Calendar.v is part of the correspondence (CCal cases)']
 
 
 def replay(R, rp):
     rc = rp.get('recipe') or (rp.get('examples') or [None])[0]
+    if rc is not None and rc.get('kind') == 'today_clock':
+        today_follows_the_clock(R)
+        for w, _ in R.violations:
+            print(w)
+        return 1 if R.violations else 0
     if rc is None or rc.get('kind') == 'today':
         print('nothing to replay in Coq: ' + str(rp.get('what')))
         return 1
